@@ -209,6 +209,7 @@ type c10ZF struct {
 	Name  string `json:"name"`
 	Kind  string `json:"kind"`
 	Perm  string `json:"perm,omitempty"`
+	Def   string `json:"def,omitempty"` // "" | "default:null" | "default:(lower('x'))": a DB default — Create leaves the column out when the Go value is ZERO
 	Embed string `json:"embed,omitempty"` // "" | "Meta:m_" value-embedded with prefix | "*Meta:m_" pointer-embedded
 }
 
@@ -216,7 +217,7 @@ type c10ZSch struct {
 	Fields []c10ZF `json:"fields"` // Fields[0] is the key `ID uint`
 }
 
-func (f c10ZF) tag() string { return c10Join(f.Perm, c10ZKindOf(f.Kind).Tag) }
+func (f c10ZF) tag() string { return c10Join(f.Perm, c10ZKindOf(f.Kind).Tag, f.Def) }
 
 func (s c10ZSch) Type() reflect.Type {
 	mk := func(f c10ZF) reflect.StructField {
@@ -283,7 +284,11 @@ func genC10KSch(rng *rand.Rand) c10ZSch {
 	n := 3 + rng.Intn(5)
 	for i := 0; i < n; i++ {
 		k := c10ZKinds[rng.Intn(len(c10ZKinds))]
-		s.Fields = append(s.Fields, c10ZF{Name: names[i], Kind: k.Name, Perm: c10ZPerms[rng.Intn(len(c10ZPerms))]})
+		f := c10ZF{Name: names[i], Kind: k.Name, Perm: c10ZPerms[rng.Intn(len(c10ZPerms))]}
+		if rng.Intn(7) == 0 && f.Perm != "-" {
+			f.Def = []string{"default:null", "default:(lower('x'))"}[rng.Intn(2)]
+		}
+		s.Fields = append(s.Fields, f)
 	}
 	if rng.Intn(2) == 0 { // a run of data fields lives in an embedded struct (value or pointer)
 		a := 1 + rng.Intn(n)
@@ -429,7 +434,7 @@ func genC10KCase(rng *rand.Rand, r *Result) *c10ZCase {
 		if c.Path == "upsert_cols" {
 			c.Selects, c.Omits = nil, nil
 			for i, f := range s.Fields[1:] {
-				if (f.Perm == "" || f.Perm == "<-") && rng.Intn(2) == 0 {
+				if (f.Perm == "" || f.Perm == "<-") && f.Def == "" && rng.Intn(2) == 0 {
 					c.DoUpdates = append(c.DoUpdates, s.col(i+1))
 				}
 			}
@@ -799,7 +804,7 @@ func c10ZJudge(c *c10ZCase, r *Result) (verdict string, detail map[string]interf
 				}
 				continue
 			}
-			if failed {
+			if failed || (c.Path == "upsert_all" && f.Def != "") { // UpdateAll leaves columns with a DB default alone or not: C03's business
 				continue
 			}
 			omitted := c10ZNamed(s, i, c.Omits)
